@@ -69,8 +69,8 @@ def run(ctx):
     if os.environ.get("VERIF_C14_ONLYBLIP"):          # development knob
         blip_allow_list(ctx)
         return
-    nsim = int(os.environ.get("VERIF_C14_NSIM") or (600 if quick else 6000))       # simulated behaviours
-    nbeh = int(os.environ.get("VERIF_C14_NBEH") or (1300 if quick else 1000000))    # sample of the exhaustive depth-3 set
+    nsim = int(os.environ.get("VERIF_C14_NSIM") or (500 if quick else 6000))       # simulated behaviours
+    nbeh = int(os.environ.get("VERIF_C14_NBEH") or (1200 if quick else 1000000))    # sample of the exhaustive depth-3 set
     with concurrent.futures.ThreadPoolExecutor(4) as ex:
         f_blip = ex.submit(blip_allow_list, ctx)          # replication clause: own spec, own harness (package rest); runs alongside the TLC stage
         if os.environ.get("VERIF_C14_NOMC"):      # development knob (mutation self-tests): skip the exhaustive run
